@@ -46,10 +46,14 @@ func tok1(t *tokenizers.Token) []any {
 func execC05(seg []Ev) []Ev {
 	var t tokenizers.ITokenizer
 	kind, bits := "", 0
+	var added [][2]any // symbols registered on the long-lived tokenizer so far: a new one gets the same
 	fresh := func(input string) [][]any {
 		f := newTokenizer(kind)
 		if bits >= 0 {
 			setOpts(f, bits)
+		}
+		for _, a := range added {
+			f.SymbolState().Add(a[0].(string), a[1].(int))
 		}
 		return tokJSON(f.TokenizeBuffer(input))
 	}
@@ -77,6 +81,11 @@ func execC05(seg []Ev) []Ev {
 				e["opts"] = optList(bits)
 				setOpts(t, bits)
 			}
+		case "addsym": // a symbol is registered on a tokenizer that has already been used
+			sym, typ := string(toRunes(in["sym"])), toInt(in["type"])
+			e["sym"], e["type"] = cps(sym), typ
+			added = append(added, [2]any{sym, typ})
+			t.SymbolState().Add(sym, typ)
 		case "setopts": // the options of the long-lived tokenizer are changed between two inputs
 			bits = optBits(in["opts"])
 			e["opts"] = optList(bits)
@@ -218,6 +227,15 @@ func genC05(g *Gen) {
 						{"op": "setopts", "opts": toAnyList(optList(b))}, {"op": "buffer", "input": cps(x)}, {"op": "setreader", "input": cps(x)}, {"op": "next"}, {"op": "next"},
 						{"op": "setopts", "opts": toAnyList(optList(a))}, {"op": "buffer", "input": cps(x)}, {"op": "setreader", "input": cps(x)}, {"op": "next"}, {"op": "hasnext"}, {"op": "next"}})
 				}
+			}
+		}
+		// (2b') symbols registered after the tokenizer has been used on a text that contains their first character
+		if kind != "mustache" {
+			for _, sy := range [][2]string{{"=>", "a = b => c =>"}, {"<-", "x < y <- z"}, {"::", "a : b :: c"}, {"!!", "! a !! !"}, {"..", "a . b .. c"}, {"+=", "1 + 2 += 3"}} {
+				seg := []Ev{{"op": "new", "kind": kind, "opts": []any{}}, {"op": "buffer", "input": cps(sy[1])}, {"op": "buffer", "input": cps(sy[0][:1])},
+					{"op": "addsym", "sym": cps(sy[0]), "type": 7}, {"op": "buffer", "input": cps(sy[1])}, {"op": "buffer", "input": cps(sy[0])},
+					{"op": "addsym", "sym": cps(sy[0] + sy[0][:1]), "type": 10}, {"op": "buffer", "input": cps(sy[1] + sy[0] + sy[0][:1])}, {"op": "setreader", "input": cps(sy[1])}, {"op": "next"}, {"op": "next"}, {"op": "next"}, {"op": "next"}}
+				g.Run("symbols registered after use:"+kind, seg)
 			}
 		}
 		// (2c) the same scanner object reset and attached again with a look-ahead token pending; options set after the reader
